@@ -149,6 +149,7 @@ static Type *struct_decl(Token **rest, Token *tok);
 static Type *union_decl(Token **rest, Token *tok);
 static Node *postfix(Token **rest, Token *tok);
 static Node *funcall(Token **rest, Token *tok, Node *node);
+static bool is_compound_literal(Token *tok);
 static Node *unary(Token **rest, Token *tok);
 static Node *primary(Token **rest, Token *tok);
 static Token *parse_typedef(Token *tok, Type *basety);
@@ -3208,6 +3209,19 @@ static Node *postfix(Token **rest, Token *tok) {
   }
 }
 
+// True if `tok` is the "(" of "(" type-name ")" "{", i.e. of a compound
+// literal rather than of a parenthesized type name.
+static bool is_compound_literal(Token *tok) {
+  int level = 0;
+  for (; tok->kind != TK_EOF; tok = tok->next) {
+    if (equal(tok, "("))
+      level++;
+    else if (equal(tok, ")") && --level == 0)
+      return equal(tok->next, "{");
+  }
+  return false;
+}
+
 // funcall = (assign ("," assign)*)? ")"
 static Node *funcall(Token **rest, Token *tok, Node *fn) {
   add_type(fn);
@@ -3334,7 +3348,8 @@ static Node *primary(Token **rest, Token *tok) {
     return node;
   }
 
-  if (equal(tok, "sizeof") && equal(tok->next, "(") && is_typename(tok->next->next)) {
+  if (equal(tok, "sizeof") && equal(tok->next, "(") && is_typename(tok->next->next) &&
+      !is_compound_literal(tok->next)) {
     Type *ty = typename(&tok, tok->next->next);
     *rest = skip(tok, ")");
 
